@@ -257,6 +257,10 @@ class Interp:
             return r.value
         finally:
             self.call_depth -= 1
+            if getattr(f, "top_level", False):
+                # ghost: the locals of the function under verification at its exit, so that a postcondition of the
+                # form "there is a column c such that ..." can name its witness (read-only, contract side)
+                st.ghost["exit_locals"] = dict(frame.locals)
         return None
 
     @staticmethod
